@@ -1,11 +1,12 @@
 // c12 — correspondence + property harness for C12 (the mempool stays conflict-free, spendable and
 // internally consistent). Drives the REAL client/txpool in-process on a chainkit chain (script checks on, real
 // signatures), feeds the same operation history to the Lean model (oracle_c12) and after every operation
-//   (a) compares the whole observable pool state with the model, and
-//   (b) evaluates the property's own predicate on the real pool, independently of the model:
-//       no double spends, inputs spendable, SpentOutputs = inverse of the inputs, nothing pooled confirmed,
-//       Fee/Volume/sizes/totals exact, MempoolCheck() clean, GetSortedMempoolRBF() a parents-first permutation,
-//       and the block assembled from it accepted by CheckBlock + ProcessBlockTransactions (scripts verified).
+//
+//	(a) compares the whole observable pool state with the model, and
+//	(b) evaluates the property's own predicate on the real pool, independently of the model:
+//	    no double spends, inputs spendable, SpentOutputs = inverse of the inputs, nothing pooled confirmed,
+//	    Fee/Volume/sizes/totals exact, MempoolCheck() clean, GetSortedMempoolRBF() a parents-first permutation,
+//	    and the block assembled from it accepted by CheckBlock + ProcessBlockTransactions (scripts verified).
 package main
 
 import (
@@ -334,7 +335,7 @@ func scBlocksReorg(w *World) {
 	w.submit(cc, "net")
 	cx := w.spend(fc[1:2], 1, 7000, nil, false) // conflicts with c, never submitted
 	u := w.spend(fc[2:3], 1, 1000, nil, false)  // unknown to the pool
-	w.mine([]*txInfo{a, cx, u})                  // b stays (parent mined), c is thrown out
+	w.mine([]*txInfo{a, cx, u})                 // b stays (parent mined), c is thrown out
 	d := w.spend(u.outs[:1], 1, 2000, nil, false)
 	w.submit(d, "net") // spends an output of the block just mined
 	w.reorg(1, []*txInfo{c})
@@ -483,8 +484,13 @@ func scRejects(w *World) {
 // ------------------------------------------------------------------------------------------ random histories
 
 func scRandom(steps int, withBig bool) func(w *World) {
-	return func(w *World) {
-		var held []*txInfo // built but not (yet) submitted: parents of orphans, conflicts, unknown txs
+	return func(w *World) { scRandomSteps(w, steps, withBig, true) }
+}
+
+// scRandomSteps runs `steps` random operations; final = finish with a block taking the whole pool.
+func scRandomSteps(w *World, steps int, withBig bool, final bool) {
+	{
+		var held []*txInfo // built but not (yet) submitted: parents of orphans, conflicts, unknown txs, refused ones
 		for i := 0; i < steps && !w.failed && !w.dead; i++ {
 			free := w.freeCoins(false)
 			conf := w.freeCoins(true)
@@ -544,11 +550,18 @@ func scRandom(steps int, withBig bool) func(w *World) {
 				case 3:
 					fee = fee*30 + 20000
 				}
-				t := w.spend(coins, 1+w.g.Intn(2), fee, nil, false)
+				var t *txInfo
+				if w.g.Chance(1, 7) { // heavier than MaxTxWeight: refused before any conflict handling, consensus-valid
+					t = w.heavyTx(coins, fee, 12+w.g.Intn(2))
+					w.r.Hit("gen:heavy-conflict")
+				} else {
+					t = w.spend(coins, 1+w.g.Intn(2), fee, nil, false)
+				}
 				if w.g.Chance(1, 4) {
 					held = append(held, t) // a conflict that may show up in a block
-				} else {
-					w.submit(t, w.randMode())
+				} else if code := w.submit(t, w.randMode()); code != 0 && code < 1000 && w.g.Chance(2, 3) {
+					held = append(held, t) // refused (any reason): it may still show up in a block
+					w.r.Hit("gen:refused-conflict-held")
 				}
 			case x < 62 && len(free) > 0: // orphan: child first, parent held back
 				p := w.spend(w.pickCoins(free, 1), 1+w.g.Intn(2), w.randFee(1, 2), nil, false)
@@ -567,13 +580,27 @@ func scRandom(steps int, withBig bool) func(w *World) {
 				w.submit(w.order[w.g.Intn(len(w.order))], w.randMode())
 			case x < 77 && len(free) > 0: // refused kinds
 				c := w.pickCoins(free, 1)
-				switch w.g.Intn(3) {
+				if len(pool) > 0 && w.g.Bool() { // ... of a coin that a pooled tx spends: refused AND conflicting
+					v := pool[w.g.Intn(len(pool))]
+					if vc := w.coinOf(v.tx.TxIn[w.g.Intn(len(v.tx.TxIn))].Input); vc != nil && vc.Kind != "raw" {
+						c = []*chainkit.Coin{vc}
+					}
+				}
+				var t *txInfo
+				switch w.g.Intn(5) {
 				case 0:
-					w.submit(w.mkTx(c, nil, []chainkit.OutSpec{{Value: c[0].Value + 7, Script: chainkit.AnyoneScript}}, false), "net")
+					t = w.mkTx(c, nil, []chainkit.OutSpec{{Value: c[0].Value + 7, Script: chainkit.AnyoneScript}}, false)
 				case 1:
-					w.submit(w.spend(c, 1, uint64(w.g.Intn(20)), nil, false), "net")
+					t = w.spend(c, 1, uint64(w.g.Intn(20)), nil, false)
 				case 2:
-					w.submit(w.spend([]*chainkit.Coin{c[0], w.immature}, 1, 5000, nil, false), "net")
+					t = w.spend([]*chainkit.Coin{c[0], w.immature}, 1, 5000, nil, false)
+				case 3:
+					t = w.heavyTx(c, w.randFee(1, 13)*40, 12)
+				case 4:
+					t = w.spend([]*chainkit.Coin{c[0], c[0]}, 1, 3000, nil, false)
+				}
+				if code := w.submit(t, "net"); code != 0 && code < 1000 && w.g.Chance(2, 3) {
+					held = append(held, t)
 				}
 			case x < 87: // block: some pooled txs (listing order), some held ones, an unknown one
 				var cands []*txInfo
@@ -632,7 +659,9 @@ func scRandom(steps int, withBig bool) func(w *World) {
 				}
 			}
 		}
-		w.mine(w.pooled())
+		if final {
+			w.mine(w.pooled())
+		}
 	}
 }
 
@@ -676,15 +705,31 @@ func scenarios(r *vlib.Run) []scenario {
 		{"corpus:evict-local", scEvictLocal, false},
 		{"corpus:joined-families", scJoinedFamilies, false},
 		{"corpus:rejects", scRejects, false},
+		{"corpus:reject-nodata-mined", scRejectMined, false},
+		{"corpus:reject-mined-notfullrbf", scRejectMined, true},
 	}
+	l = append(l,
+		// 43 arrivals directly below the head of a freshly built list: the rank gap there goes 2^42.4 … 3, 2, 1
+		scenario{"corpus:squeeze-head-43", scSqueeze(squeezeParams{n: 43, pos: 0, noFar: true, kidsFor: 4}, 6), false},
+		// adaptive: as many arrivals as it takes until one has met a gap <= 1, then the children
+		scenario{"corpus:squeeze-middle", scSqueeze(squeezeParams{n: 0, pos: 1, kidsFor: 4}, 9), false},
+		scenario{"corpus:squeeze-tail", scSqueeze(squeezeParams{n: 0, pos: 2, noFar: true, kidsFor: 3}, 6), false},
+		scenario{"corpus:squeeze-up", scSqueeze(squeezeParams{n: 0, up: true, pos: 1, kidsFor: 4}, 6), false},
+		scenario{"corpus:squeeze-mem-interleaved", scSqueeze(squeezeParams{n: 46, pos: 0, memSplit: true, interleave: 39, kidsFor: 2}, 4), true},
+	)
 	nr := r.N(10, 60)
 	for i := 0; i < nr; i++ {
 		l = append(l, scenario{fmt.Sprintf("random:%d", i), scRandom(r.N(60, 100), i%5 == 4), i%4 == 3})
+	}
+	ns := r.N(3, 24)
+	for i := 0; i < ns; i++ {
+		l = append(l, scenario{fmt.Sprintf("random-squeeze:%d", i), scRandomSqueeze(r.N(30, 60)), i%4 == 3})
 	}
 	return l
 }
 
 func runScenario(r *vlib.Run, sc scenario, g *vlib.Rng) *World {
+	defer prof("scenario " + sc.name)()
 	w := newWorld(r, g, sc.name, sc.rbf)
 	defer w.close()
 	func() {
@@ -762,6 +807,7 @@ func main() {
 }
 
 func finish(r *vlib.Run) {
+	profPrint()
 	os.Stdout = realOut
 	syscall.Dup2(int(realErr.Fd()), 2)
 	r.Finish("one case = the real pool state after one operation of a history (submit net/trusted/local, block, reorg, expiry tick, eviction tick, save+reload); distinct = different (pool, rejected) dumps; each compared with the Lean model and checked against the property predicate incl. a block template validated by the node",
